@@ -1,5 +1,6 @@
 import VivModel.Model.Proto
 import VivModel.Model.Whole
+import VivModel.Model.WholeDt
 /-! Line-protocol driver for the end-to-end model (`Model/Whole.lean`). Everything is computed by the model
 from the configuration: SHA-1 of the seed strings, the Mersenne-twister blocks, the index map, the draws,
 the decisions, the table.
@@ -22,12 +23,18 @@ Optional tokens after the 22 of `init` (the opt-in parts of the configuration; s
   strat=<name>,<kind>/<categories>/<excluded>/<edges>            (one token per stratification, in registration order)
   obs=<name>,<phase>,<filter>,<agg>,<every>/<additional>/<excluded>   (one token per observation)
 With any of them every `ok` reply carries two more fields: the log of the last pipeline values `label:num/den,…` and the
-running results `name[key=value,…]+…` (key = categories joined by `|`, `all` without stratifications); rows get `,age`. -/
+running results `name[key=value,…]+…` (key = categories joined by `|`, `all` without stratifications); rows get `,age`.
+
+  dt=<standard step in hours, 0 = none>   dmods=<per modifier: hours per state, -1 = NaT; `;` between modifiers>
+With `dt` the run is the one of `Model/WholeDt.lean` (DateTimeClock in hours of January 2021, per-simulant clocks); every
+`ok` reply then ends with one more field `<global step>/<label>:<next event time>:<step size>,…`. -/
 open Viv Viv.Proto Viv.Whole
 
 structure St where
   cfg : Option Config := none
   s : Option State := none
+  dt : Option WholeDt.DtSpec := none
+  d : Option WholeDt.DState := none
 
 def errName : Err → String
   | .randomness => "randomness" | .lookup => "lookup" | .value => "value" | .fuel => "fuel" | .internal => "internal"
@@ -150,8 +157,30 @@ def parseBase : List String → Option Config
            mortP := mortP, initW := initW, states := states }
   | _ => none
 
+def isDtTok (t : String) : Bool := t.startsWith "dt=" || t.startsWith "dmods="
+
 def parseCfg (toks : List String) : Option Config :=
-  (parseBase (toks.take 22)).bind fun c => parseExts c (toks.drop 22)
+  (parseBase (toks.take 22)).bind fun c => parseExts c ((toks.drop 22).filter fun t => !isDtTok t)
+
+def parseDt (toks : List String) : Option (Option WholeDt.DtSpec) :=
+  match (toks.drop 22).filter isDtTok with
+  | [] => some none
+  | [a, b] =>
+    match a.splitOn "=", b.splitOn "=" with
+    | ["dt", v], ["dmods", w] => do
+      let std ← v.toNat?
+      let ms ← intLists w
+      pure (some { std := std, mods := ms.map fun m => m.map fun x => if x < 0 then none else some x.toNat })
+    | _, _ => none
+  | _ => none
+
+def showClk (c : Clock.Clock) : String :=
+  s!"{c.step}/" ++ (if c.sims.isEmpty then "-" else ",".intercalate (c.sims.map fun x => s!"{x.id}:{x.next}:{x.step}"))
+
+def replyD (cfg : Config) (r : Except Err WholeDt.DState) : Option WholeDt.DState × String :=
+  match r with
+  | .ok d => (some d, showState cfg d.base ++ " " ++ showClk d.clk)
+  | .error e => (none, s!"err {errName e}")
 
 def reply (cfg : Config) (r : Except Err State) : Option State × String :=
   match r with
@@ -160,25 +189,43 @@ def reply (cfg : Config) (r : Except Err State) : Option State × String :=
 
 def step (st : St) : List String → St × String
   | "init" :: toks =>
-    match parseCfg toks with
-    | none => (st, "bad-op")
-    | some cfg =>
-      if !cfg.valid then ({ cfg := none, s := none }, "bad-config") else
+    match parseCfg toks, parseDt toks with
+    | some cfg, some none =>
+      if !cfg.valid then ({}, "bad-config") else
       let (s, r) := reply cfg (initPop cfg)
       ({ cfg := some cfg, s := s }, r)
+    | some cfg, some (some dt) =>
+      if !WholeDt.validD cfg dt then ({}, "bad-config") else
+      let (d, r) := replyD cfg (WholeDt.initPopD RandomBlock.blockOf cfg dt)
+      ({ cfg := some cfg, dt := some dt, d := d }, r)
+    | _, _ => (st, "bad-op")
   | ["step"] =>
-    match st.cfg, st.s with
-    | some cfg, some s =>
-      let (s', r) := reply cfg (stepWhole RandomBlock.blockOf cfg s)
-      ({ st with s := s' }, r)
-    | some _, none => (st, "err dead")
+    match st.cfg, st.dt with
+    | some cfg, some dt =>
+      match st.d with
+      | some d =>
+        let (d', r) := replyD cfg (WholeDt.stepD RandomBlock.blockOf cfg dt d)
+        ({ st with d := d' }, r)
+      | none => (st, "err dead")
+    | some cfg, none =>
+      match st.s with
+      | some s =>
+        let (s', r) := reply cfg (stepWhole RandomBlock.blockOf cfg s)
+        ({ st with s := s' }, r)
+      | none => (st, "err dead")
     | none, _ => (st, "bad-op")
   | ["run", f] =>
     match st.cfg, f.toNat? with
     | some cfg, some f =>
-      match initPop cfg with
-      | .error e => (st, s!"err {errName e}")
-      | .ok s0 => (st, (reply cfg (runWhole cfg f s0)).2)
+      match st.dt with
+      | some dt =>
+        match WholeDt.initPopD RandomBlock.blockOf cfg dt with
+        | .error e => (st, s!"err {errName e}")
+        | .ok d0 => (st, (replyD cfg (WholeDt.runD RandomBlock.blockOf cfg dt f d0)).2)
+      | none =>
+        match initPop cfg with
+        | .error e => (st, s!"err {errName e}")
+        | .ok s0 => (st, (reply cfg (runWhole cfg f s0)).2)
     | _, _ => (st, "bad-op")
   | _ => (st, "bad-op")
 
